@@ -39,10 +39,36 @@ type verifObj struct {
 	ttl    string
 }
 
+type verifZEntry struct {
+	score  int64
+	member string
+}
+
+type verifZSet struct {
+	key     string // "db|key"
+	entries []verifZEntry
+}
+
 type verifState struct {
 	hashKeys []string // "db|key"
 	hashes   []*verifHash
 	objs     []*verifObj
+	zsets    []*verifZSet
+}
+
+func (s *verifState) zset(db int, key string, create bool) *verifZSet {
+	k := strconv.Itoa(db) + "|" + key
+	for _, z := range s.zsets {
+		if z.key == k {
+			return z
+		}
+	}
+	if !create {
+		return nil
+	}
+	z := &verifZSet{key: k}
+	s.zsets = append(s.zsets, z)
+	return z
 }
 
 func (s *verifState) obj(db int, key string, create bool) *verifObj {
@@ -108,6 +134,11 @@ func (s *verifState) keysIn(db int) int {
 	}
 	for _, o := range s.objs {
 		if strings.HasPrefix(o.key, p) {
+			n++
+		}
+	}
+	for _, z := range s.zsets {
+		if strings.HasPrefix(z.key, p) && len(z.entries) > 0 {
 			n++
 		}
 	}
@@ -258,9 +289,73 @@ func (f *verifFake) apply(r verifReq) interface{} {
 				n++
 			} else if f.st.delObj(r.db, k) {
 				n++
+			} else if z := f.st.zset(r.db, k, false); z != nil {
+				for zi := range f.st.zsets {
+					if f.st.zsets[zi] == z {
+						f.st.zsets = append(f.st.zsets[:zi], f.st.zsets[zi+1:]...)
+						break
+					}
+				}
+				n++
 			}
 		}
 		return n
+	case "zadd":
+		z := f.st.zset(r.db, verifArgStr(r.args[0]), true)
+		n := int64(0)
+		for i := 1; i+1 < len(r.args); i += 2 {
+			sc, _ := strconv.ParseInt(verifArgStr(r.args[i]), 10, 64)
+			m := verifArgStr(r.args[i+1])
+			found := false
+			for j := range z.entries {
+				if z.entries[j].member == m {
+					z.entries[j].score, found = sc, true
+				}
+			}
+			if !found {
+				// keep ordered by score (stable)
+				pos := len(z.entries)
+				for j := range z.entries {
+					if z.entries[j].score > sc {
+						pos = j
+						break
+					}
+				}
+				z.entries = append(z.entries, verifZEntry{})
+				copy(z.entries[pos+1:], z.entries[pos:])
+				z.entries[pos] = verifZEntry{sc, m}
+				n++
+			}
+		}
+		return n
+	case "zrem":
+		z := f.st.zset(r.db, verifArgStr(r.args[0]), false)
+		n := int64(0)
+		if z != nil {
+			for _, a := range r.args[1:] {
+				m := verifArgStr(a)
+				for j := range z.entries {
+					if z.entries[j].member == m {
+						z.entries = append(z.entries[:j], z.entries[j+1:]...)
+						n++
+						break
+					}
+				}
+			}
+		}
+		return n
+	case "zrangebyscore":
+		z := f.st.zset(r.db, verifArgStr(r.args[0]), false)
+		out := []interface{}{}
+		if z != nil {
+			min, _ := strconv.ParseInt(verifArgStr(r.args[1]), 10, 64)
+			for _, e := range z.entries {
+				if e.score >= min { // max is "+inf" in every caller
+					out = append(out, []byte(e.member))
+				}
+			}
+		}
+		return out
 	case "restore":
 		// RESTORE key ttl payload [REPLACE] ...  (D9)
 		k := verifArgStr(r.args[0])
@@ -414,7 +509,7 @@ func (f *verifFake) Addresses() []string            { return []string{"fake:6379
 func (f *verifFake) IterateNodes(result func(string, interface{}, error), cmd string, args ...interface{}) {
 }
 func (f *verifFake) NewBatcher(pipeline bool) common.CmdBatcher { return &verifBatcher{f: f} }
-func (f *verifFake) NewTxnBatcher() common.CmdBatcher           { return &verifBatcher{f: f} }
+func (f *verifFake) NewTxnBatcher() common.CmdBatcher           { return &verifBatcher{f: f, txn: true} }
 
 type verifBatchCmd struct {
 	cmd  string
@@ -423,6 +518,7 @@ type verifBatchCmd struct {
 
 type verifBatcher struct {
 	f    *verifFake
+	txn  bool // transaction batcher: wraps the queued commands in MULTI ... EXEC
 	cmds []verifBatchCmd
 	sent bool
 	reps []interface{}
@@ -436,6 +532,10 @@ func (b *verifBatcher) Put(cmd string, args ...interface{}) error {
 func (b *verifBatcher) Len() int { return len(b.cmds) }
 func (b *verifBatcher) run() {
 	b.f.batchN++
+	if b.txn {
+		cmds := append([]verifBatchCmd{{"multi", nil}}, b.cmds...)
+		b.cmds = append(cmds, verifBatchCmd{"exec", nil})
+	}
 	for _, c := range b.cmds {
 		rep, err := b.f.request(c.cmd, c.args)
 		if err != nil {
